@@ -9,6 +9,8 @@ Definition dev_table := list (comp * (Z * Z * Z)).
 
 Definition hsh (seed c n p : Z) : Z := (seed * 7919 + c * 104729 + n * 1299709 + p * 15485863) mod 1000.
 
+Definition none_value : Z := -777777.
+
 Definition table_dev (tab : dev_table) : devfun :=
   fun c n time inputs =>
     match lookup c tab with
@@ -16,11 +18,13 @@ Definition table_dev (tab : dev_table) : devfun :=
     | Some (seed, period, policy) =>
         let cz := Z.pos c in
         let insum := (fold_left (fun acc (kv : port * Z) => acc + Z.pos (fst kv) * 31 + snd kv) inputs 0) mod 9973 in
+        (* now and then the value is Python's None (a value like any other, equal to itself only: the integer none_value) *)
+        let nv := fun (p : positive) (v : Z) => if hsh seed cz n (Z.pos p + 20) mod 9 =? 0 then none_value else v in
         let outs := flat_map (fun p : positive =>
                       let x := hsh seed cz n (Z.pos p) mod 8 in
                       if x =? 0 then []
-                      else if x <=? 3 then [(p, cz * 10 + Z.pos p)]
-                      else [(p, (n * 1000 + cz * 10 + Z.pos p + insum * 7) mod 1000000)])
+                      else if x <=? 3 then [(p, nv p (cz * 10 + Z.pos p))]
+                      else [(p, nv p ((n * 1000 + cz * 10 + Z.pos p + insum * 7) mod 1000000))])
                     [1%positive; 2%positive] in
         let h2 := hsh seed cz n 7 in
         let call_at :=
